@@ -238,4 +238,124 @@ theorem clearRange_spec (hsw : SwarPopcount) (b : T) (s e : Nat) :
         unfold mem; rw [bit_of_ge _ _ this]; simp
       · simp [hx']
 
+/-! ### the members after a range operation do not depend on the count bookkeeping
+
+The words computed by the range loop never look at `set`, so the effect on `mem` holds without any assumption about
+`countSetBits`; only the statement about `Count` (`Inv`) needs `SwarPopcount`. -/
+
+theorem bitLoop_fst_congr {act : W → Int → Nat → W × Int} (ha : ∀ w s s' j, (act w s j).1 = (act w s' j).1) (n : Nat) :
+    ∀ (w : W) (s s' : Int) (j : Nat), (bitLoop act w s j n).1 = (bitLoop act w s' j n).1 := by
+  induction n with
+  | zero => intro w s s' j; rfl
+  | succ n ih =>
+    intro w s s' j
+    simp only [bitLoop]
+    rw [ha w s s' j]
+    exact ih _ _ _ _
+
+theorem rangeLoop_fst_congr {whole whole' : W → Int → W × Int} {act : W → Int → Nat → W × Int}
+    (hw : ∀ w s s', (whole w s).1 = (whole' w s').1) (ha : ∀ w s s' j, (act w s j).1 = (act w s' j).1)
+    (i1 i2 lb : Nat) (n : Nat) : ∀ (d : List W) (s s' : Int) (i j : Nat),
+    (rangeLoop whole act i1 i2 lb d s i j n).1 = (rangeLoop whole' act i1 i2 lb d s' i j n).1 := by
+  induction n with
+  | zero => intro d s s' i j; rfl
+  | succ n ih =>
+    intro d s s' i j
+    simp only [rangeLoop]
+    split
+    · rw [hw (getW d i) s s']
+      exact ih _ _ _ _ _
+    · rw [bitLoop_fst_congr ha _ (getW d i) s s' j]
+      exact ih _ _ _ _ _
+
+theorem runRange_mem {whole : W → Int → W × Int} {act : W → Int → Nat → W × Int} {f : Bool → Bool}
+    (hwb : ∀ w s k, k < 64 → (whole w s).1.getLsbD k = f (w.getLsbD k))
+    (hws : ∀ w s s', (whole w s).1 = (whole w s').1)
+    (hb : BitSpec act f) (ha : ∀ w s s' j, (act w s j).1 = (act w s' j).1)
+    (b : T) (lo hi : Nat) (hle : lo ≤ hi) (hcap : hi / 64 < b.data.length) (x : Nat) :
+    mem (runRange whole act b lo hi (lo / 64) (hi / 64)) x = if lo ≤ x ∧ x ≤ hi then f (mem b x) else mem b x := by
+  -- the same word computation with an exact count: satisfies `WholeSpec` by construction
+  have hw' : WholeSpec (fun w s => ((whole w 0).1, s + popcount (whole w 0).1 - popcount w)) f :=
+    ⟨fun w s k hk => hwb w 0 k hk, fun w s => rfl⟩
+  obtain ⟨h1, _, _⟩ := runRange_spec hw' hb b lo hi hle hcap
+  rw [← h1 x]
+  unfold mem runRange
+  simp only
+  rw [rangeLoop_fst_congr (whole' := fun w s => ((whole w 0).1, s + popcount (whole w 0).1 - popcount w))
+    (fun w s s' => hws w s 0) ha]
+
+theorem bitSet_fst (w : W) (s s' : Int) (j : Nat) : (bitSet w s j).1 = (bitSet w s' j).1 := by
+  unfold bitSet; simp only; split <;> rfl
+theorem bitClear_fst (w : W) (s s' : Int) (j : Nat) : (bitClear w s j).1 = (bitClear w s' j).1 := by
+  unfold bitClear; simp only; split <;> rfl
+theorem bitFlip_fst (w : W) (s s' : Int) (j : Nat) : (bitFlip w s j).1 = (bitFlip w s' j).1 := by
+  unfold bitFlip; simp only; split <;> rfl
+
+/-- **SetRange**: the members afterwards (no assumption) -/
+theorem setRange_mem (b : T) (s e x : Nat) :
+    mem (setRange b s e) x = (mem b x || decide (min s e ≤ x ∧ x ≤ max s e)) := by
+  unfold setRange
+  simp only [wordIdx_eq]
+  generalize hse : (if s > e then (e, s) else (s, e)) = se
+  have hlo : se.1 = min s e := by rw [← hse]; split <;> simp <;> omega
+  have hhi : se.2 = max s e := by rw [← hse]; split <;> simp <;> omega
+  have hlen := ensure_length b (se.2 / 64 + 1)
+  rw [runRange_mem (f := fun _ => true)
+    (fun w s k hk => by show (BitVec.allOnes 64).getLsbD k = true; rw [BitVec.getLsbD_allOnes]; simp [hk])
+    (fun _ _ _ => rfl) bitSet_spec bitSet_fst (ensureCapacity b (se.2 / 64 + 1)) se.1 se.2
+    (by rw [hlo, hhi]; omega) (by omega) x, hlo, hhi]
+  unfold mem; rw [ensure_bit]
+  by_cases hx : min s e ≤ x ∧ x ≤ max s e <;> simp [hx]
+
+/-- **FlipRange**: the members afterwards (no assumption) -/
+theorem flipRange_mem (b : T) (s e x : Nat) :
+    mem (flipRange b s e) x = (mem b x ^^ decide (min s e ≤ x ∧ x ≤ max s e)) := by
+  unfold flipRange
+  simp only [wordIdx_eq]
+  generalize hse : (if s > e then (e, s) else (s, e)) = se
+  have hlo : se.1 = min s e := by rw [← hse]; split <;> simp <;> omega
+  have hhi : se.2 = max s e := by rw [← hse]; split <;> simp <;> omega
+  have hlen := ensure_length b (se.2 / 64 + 1)
+  rw [runRange_mem (f := fun v => !v)
+    (fun w s k hk => by
+      show (w ^^^ BitVec.allOnes 64).getLsbD k = !w.getLsbD k
+      rw [BitVec.getLsbD_xor, BitVec.getLsbD_allOnes]; simp [hk])
+    (fun _ _ _ => rfl) bitFlip_spec bitFlip_fst (ensureCapacity b (se.2 / 64 + 1)) se.1 se.2
+    (by rw [hlo, hhi]; omega) (by omega) x, hlo, hhi]
+  unfold mem; rw [ensure_bit]
+  by_cases hx : min s e ≤ x ∧ x ≤ max s e <;> simp [hx]
+
+/-- **ClearRange**: the members afterwards, also for ranges that reach beyond the capacity (no assumption) -/
+theorem clearRange_mem (b : T) (s e x : Nat) :
+    mem (clearRange b s e) x = (mem b x && !decide (min s e ≤ x ∧ x ≤ max s e)) := by
+  unfold clearRange
+  simp only [wordIdx_eq, shl_eq]
+  generalize hse : (if s > e then (e, s) else (s, e)) = se
+  have hlo : se.1 = min s e := by rw [← hse]; split <;> simp <;> omega
+  have hhi : se.2 = max s e := by rw [← hse]; split <;> simp <;> omega
+  by_cases hout : se.1 / 64 + 1 > b.data.length
+  · simp only [hout, if_true]
+    by_cases hx : min s e ≤ x ∧ x ≤ max s e
+    · unfold mem; rw [bit_of_ge _ _ (by omega)]; simp
+    · simp [hx]
+  · simp only [hout, if_false]
+    generalize hie : (if se.2 / 64 + 1 > b.data.length then (b.data.length - 1, b.data.length * 64 - 1)
+      else (se.2 / 64, se.2)) = ie
+    have hi1 : ie.1 = ie.2 / 64 := by rw [← hie]; split <;> simp; omega
+    have hi2 : ie.2 / 64 < b.data.length := by rw [← hie]; split <;> simp <;> omega
+    have hi3 : se.1 ≤ ie.2 := by rw [← hie]; split <;> simp <;> omega
+    have hi4 : ie.2 ≤ se.2 := by rw [← hie]; split <;> simp <;> omega
+    have hi5 : ie.2 = se.2 ∨ ie.2 + 1 = b.data.length * 64 := by rw [← hie]; split <;> simp <;> omega
+    rw [hi1, runRange_mem (f := fun _ => false)
+      (fun w s k _ => by show (0#64).getLsbD k = false; simp)
+      (fun _ _ _ => rfl) bitClear_spec bitClear_fst b se.1 ie.2 hi3 hi2 x]
+    by_cases hx : se.1 ≤ x ∧ x ≤ ie.2
+    · have hx' : min s e ≤ x ∧ x ≤ max s e := by omega
+      simp [hx, hx']
+    · rw [if_neg hx]
+      by_cases hx' : min s e ≤ x ∧ x ≤ max s e
+      · have : b.data.length * 64 ≤ x := by omega
+        unfold mem; rw [bit_of_ge _ _ this]; simp
+      · simp [hx']
+
 end BS
